@@ -361,6 +361,8 @@ def _main_shard(sh: Dict[str, Any]) -> Dict[str, Any]:
             tot["paths"] += eng.paths
             tot["queries"] += eng.queries
             tot["solver_time"] += eng.solver_time
+            tot["path_exceptions"] = tot.get("path_exceptions", 0) + eng.n_exceptions
+            tot.setdefault("path_exception_samples", []).extend(eng.exceptions[:2])
             exhausted = exhausted and eng.exhausted
             inconc += eng.inconclusive
             extra["observation_points"] += len(results)
@@ -378,6 +380,7 @@ def _main_shard(sh: Dict[str, Any]) -> Dict[str, Any]:
     if crash:
         return {"shard": sh["name"], "crash": crash}
     return {"paths": tot["paths"], "queries": tot["queries"], "solver_time": tot["solver_time"], "exhausted": exhausted,
+            "path_exceptions": tot.get("path_exceptions", 0), "path_exception_samples": tot.get("path_exception_samples", [])[:3],
             "inconclusive": sorted(set(inconc))[:3], "shard": sh["name"], "cex": cex, "samples": samples, "extra": extra,
             "reached": extra["observation_points"]}
 
